@@ -588,6 +588,81 @@ def _collect_self_fields(rv, acc, b):
             op(o)
 
 
+def _pose_list_by_interpretation(ctx, prog, wp, ai, role_of):
+    """R12.5 land-first / park-last / trace-from-steps, whatever way the list is built: the pose-list builder is interpreted
+    for 0, 1, 2 and 3 stroke poses (symbolic poses, the interpolating helper scripted to append a marker (start, end)) and the
+    list it returns must be LAND(land), [between], TRACE(s0), [between], .., PARK(park) with every `between` running from the
+    pose before it to the pose after it.  None when the builder cannot be interpreted (the structural clauses apply then)."""
+    from .. import absint
+    from ..absint import Interp, Sym
+
+    def val(I, st, a):
+        while isinstance(a, tuple) and a and a[0] in ('ref', 'refval', 'mref'):
+            a = I.deref(a, st)
+        return a
+    # parameters of the interpolating helper: the list and, in order, the two poses
+    vecp = [k for k in range(1, ai.arg_count + 1) if ai.local_ty(k).replace('std::vec::', '') == '&mut Vec<cartesian::AnnotatedPose>']
+    posep = [k for k in range(1, ai.arg_count + 1) if 'Isometry' in ai.local_ty(k) and ai.local_ty(k).startswith('&')]
+    if len(vecp) != 1 or len(posep) != 2:
+        return None
+
+    def h_ai(I, st, a, t, b):
+        cur = val(I, st, a[vecp[0] - 1])
+        I._write_ref(st, a[vecp[0] - 1], tuple(cur) + (Sym(('between', val(I, st, a[posep[0] - 1]), val(I, st, a[posep[1] - 1]))),))
+        return ()
+    H = {cname(ai.path): h_ai, ai.path: h_ai}
+    results = []
+    for n in range(0, 4):
+        steps = tuple(Sym('step%d' % k) for k in range(n))
+        args = []
+        for pos in range(1, wp.arg_count + 1):
+            r = role_of.get(pos)
+            args.append(('refval', steps, ()) if r == 'steps' else ('refval', Sym(r if r else 'arg%d' % pos), ()))
+        I = Interp(prog, H, fuel=100000, max_paths=8)
+        try:
+            outs = I.run(wp.path, args)
+        except (absint.Unsupported, absint.Undecided):
+            return None
+        if len(outs) != 1 or not isinstance(outs[0].ret, (tuple, list)):
+            return None
+        results.append((n, steps, outs[0].ret))
+    for n, steps, got in results:
+        anchors = [('LAND', Sym('land'))] + [('TRACE', x) for x in steps] + [('PARK', Sym('park'))]
+        want = []
+        for k, (fl, ps) in enumerate(anchors):
+            want.append((fl, ps))
+            if k + 1 < len(anchors):
+                want.append(('between', ps, anchors[k + 1][1]))
+        seen = []
+        for x in got:
+            if isinstance(x, Sym) and isinstance(x.tag, tuple) and x.tag[0] == 'between':
+                seen.append(('between', x.tag[1], x.tag[2]))
+            elif isinstance(x, dict) and 'pose' in x and 'flags' in x:
+                fl = x['flags']
+                nm = fl.tag[1].split('::')[-1] if isinstance(fl, Sym) and isinstance(fl.tag, tuple) and fl.tag[0] == 'const' else repr(fl)
+                seen.append((nm, x['pose']))
+            else:
+                seen.append(('?', x))
+        ok = seen == want
+        first_bad = next((k for k in range(max(len(seen), len(want))) if k >= len(seen) or k >= len(want) or seen[k] != want[k]), None)
+        if not ok and first_bad is not None and (first_bad == 0 or (seen and seen[0] != want[0])):
+            key = 'land-first'
+        elif not ok and (len(seen) == 0 or seen[-1] != want[-1]):
+            key = 'park-last'
+        else:
+            key = 'trace-from-steps'
+        if not ok:
+            ctx.violation('R12.5', key, wp.where(0), wp.path,
+                          'for %d stroke poses the pose list must be LAND(land), the stroke poses as TRACE in order, PARK(park), with the interpolated '
+                          'poses between neighbours: entry %s is %s, expected %s' % (n, first_bad, seen[first_bad] if first_bad is not None and first_bad < len(seen) else 'missing',
+                                                                                       want[first_bad] if first_bad is not None and first_bad < len(want) else 'nothing'),
+                          found=repr(seen)[:300], expected=repr(want)[:300])
+            return False
+    for key in ('land-first', 'park-last', 'trace-from-steps'):
+        ctx.ok('R12.5', key, wp.where(0), 'by interpretation for 0..3 stroke poses')
+    return True
+
+
 def _poses(ctx, prog):
     plan = body(ctx, 'plan')
     wp = util.find_role(ctx, 'pose-list builder of Cartesian: returns Vec<AnnotatedPose>',
@@ -614,13 +689,15 @@ def _poses(ctx, prog):
     land = [x for x in items if 'LAND' in x[2]]
     park = [x for x in items if 'PARK' in x[2]]
     trace = [x for x in items if 'TRACE' in x[2]]
-    ok = len(land) == 1 and 'land' in land[0][1] and all(wp.dominates(land[0][0], x[0]) for x in items)
-    ctx.check(ok, 'R12.5', 'land-first', wp.where(land[0][0]) if land else wp.where(0), wp.path, 'the LAND pose (caller\'s land) must be pushed first', found=land)
-    rb = wp.return_blocks()
-    ok = len(park) == 1 and 'park' in park[0][1] and all(wp.dominates(park[0][0], r) for r in rb) and not any(wp.reaches(park[0][0], x[0]) for x in items if x[0] != park[0][0])
-    ctx.check(ok, 'R12.5', 'park-last', wp.where(park[0][0]) if park else wp.where(0), wp.path, 'the PARK pose (caller\'s park) must be pushed last on every path', found=park)
-    ok = len(trace) >= 1 and all('steps' in x[1] for x in trace)
-    ctx.check(ok, 'R12.5', 'trace-from-steps', wp.where(trace[0][0]) if trace else wp.where(0), wp.path, 'TRACE poses must be the caller\'s stroke poses', found=trace)
+    listed = _pose_list_by_interpretation(ctx, prog, wp, ai, role_of)
+    if listed is None:
+        ok = len(land) == 1 and 'land' in land[0][1] and all(wp.dominates(land[0][0], x[0]) for x in items)
+        ctx.check(ok, 'R12.5', 'land-first', wp.where(land[0][0]) if land else wp.where(0), wp.path, 'the LAND pose (caller\'s land) must be pushed first', found=land)
+        rb = wp.return_blocks()
+        ok = len(park) == 1 and 'park' in park[0][1] and all(wp.dominates(park[0][0], r) for r in rb) and not any(wp.reaches(park[0][0], x[0]) for x in items if x[0] != park[0][0])
+        ctx.check(ok, 'R12.5', 'park-last', wp.where(park[0][0]) if park else wp.where(0), wp.path, 'the PARK pose (caller\'s park) must be pushed last on every path', found=park)
+        ok = len(trace) >= 1 and all('steps' in x[1] for x in trace)
+        ctx.check(ok, 'R12.5', 'trace-from-steps', wp.where(trace[0][0]) if trace else wp.where(0), wp.path, 'TRACE poses must be the caller\'s stroke poses', found=trace)
     # interpolation helper: LIN_INTERP flag, same fraction
     pushes = [(bi, t) for bi, t in ai.calls() if cname(callee_name(t)) == 'Vec::push']
     ok = False
